@@ -567,7 +567,7 @@ func ruleOperatorAlphabet(c *eng.Ctx) {
 	}
 	routes := 0
 	S := eng.ByteReach(fnNext, eng.DefaultByteVar, func(in ssa.Instruction) bool {
-		if ci, ok := in.(ssa.CallInstruction); ok && ci.Common().StaticCallee() == fnOp {
+		if ci, ok := in.(ssa.CallInstruction); ok && eng.StaticCallee(ci) == fnOp {
 			routes++
 			return true
 		}
